@@ -54,4 +54,5 @@ props! {
     "C12" => c12,
     "C13" => c13,
     "C14" => c14,
+    "C15" => c15,
 }
